@@ -69,7 +69,7 @@ class SimThread:
         finally:
             self.status = DONE
             self.kind = "done"
-            self.sched.activity += 1
+            self.sched.bump()
             self.sched.obs.append(("thread-exit", self.name))
 
     def ready(self, now):
@@ -127,6 +127,8 @@ class Sched:
         self.last_tid = -1
         self.obs: list = []
         self.activity = 0
+        self.mono = 0
+        self.sig = 0  # XOR-accumulated hash of the sim-visible state (cyclic changes cancel)
         self.steps = 0
         self.max_steps = max_steps
         self.max_time = max_time
@@ -148,9 +150,21 @@ class Sched:
             name = f"{name}#{self.names[name]}"
         t = SimThread(self, len(self.threads), name, fn, obj)
         self.threads.append(t)
-        self.activity += 1
+        self.bump()
         self.obs.append(("thread-start", t.name))
         return t
+
+    def bump(self):
+        """A non-cyclic state change (bytes moved, thread born/died ...)."""
+        self.mono += 1
+        self.sig ^= hash(("mono", self.mono - 1)) ^ hash(("mono", self.mono))
+        self.activity += 1
+
+    def mix(self, key, old, new):
+        """Record a change of one state element in the state signature."""
+        if old != new:
+            self.sig ^= hash((key, old)) ^ hash((key, new))
+            self.activity += 1
 
     def thread_of(self, obj):
         for t in self.threads:
@@ -193,8 +207,9 @@ class Sched:
         t.deadline = None if timeout is None else self.now + max(0.0, timeout)
         t.is_poll = poll
         if poll:
-            t.idle = t.idle_mark == (self.activity, kind, on)
-            t.idle_mark = (self.activity, kind, on)
+            mark = (self.sig, kind, on, len(self.threads), sum(1 for x in self.threads if x.status == DONE))
+            t.idle = t.idle_mark == mark
+            t.idle_mark = mark
         else:
             t.idle = False
             t.idle_mark = None
@@ -260,20 +275,14 @@ class Sched:
                 for t in live:
                     if t not in ready and t.status == BLOCKED and t.deadline is not None and t.is_poll:
                         cands.append((t, "early"))
-            if not cands:
+            if not ready:
+                # nothing is ready: time must pass (not a choice in prompt mode)
                 dls = [t.deadline for t in live if t.deadline is not None]
                 if not dls:
                     self.outcome = "deadlock"
                     return "deadlock"
-                self.now = max(self.now, min(dls))
-                continue
-            if not ready:
-                # nothing is ready: time must pass (not a choice in prompt mode)
                 self._advance_idle(live)
-                live, ready = self.candidates()
-                cands = [(t, "ready") for t in ready]
-                if not cands:
-                    continue
+                continue
             if len(cands) > 1:
                 info = tuple((t.name, k, t.kind) for t, k in cands)
                 idx = self.chooser.choose(self, cands, info)
@@ -402,6 +411,7 @@ class SimQueue:
     def __init__(self, maxsize=0):
         self.queue = collections.deque()
         self.maxsize = maxsize
+        self.ops = 0
         SimQueue._n += 1
         self.name = f"q{SimQueue._n}"
 
@@ -415,7 +425,8 @@ class SimQueue:
         s = active()
         s.point("q.put", self.name)
         self.queue.append(item)
-        s.activity += 1
+        self.ops += 1
+        s.mix(self.name, self.ops - 1, self.ops)
 
     put_nowait = put
 
@@ -423,23 +434,25 @@ class SimQueue:
         s = active()
         if not s.in_sim():
             if self.queue:
-                s.activity += 1
-                return self.queue.popleft()
+                return self._pop(s)
             raise _real_queue.Empty
         if not block:
             s.point("q.get", self.name)
             if self.queue:
-                s.activity += 1
-                return self.queue.popleft()
+                return self._pop(s)
             raise _real_queue.Empty
         if self.queue:
             s.point("q.get", self.name)
         if not self.queue:
             s.block("q.get", self.name, lambda: bool(self.queue), timeout)
         if self.queue:
-            s.activity += 1
-            return self.queue.popleft()
+            return self._pop(s)
         raise _real_queue.Empty
+
+    def _pop(self, s):
+        self.ops += 1
+        s.mix(self.name, self.ops - 1, self.ops)
+        return self.queue.popleft()
 
     def get_nowait(self):
         return self.get(False)
@@ -474,15 +487,13 @@ class SimEvent:
     def set(self):
         s = active()
         s.point("ev.set", self.name)
-        if not self._flag:
-            s.activity += 1
+        s.mix(self.name, self._flag, True)
         self._flag = True
 
     def clear(self):
         s = active()
         s.point("ev.clear", self.name)
-        if self._flag:
-            s.activity += 1
+        s.mix(self.name, self._flag, False)
         self._flag = False
 
     def wait(self, timeout=None):
@@ -522,7 +533,7 @@ class SimLock:
             if not ok:
                 return False
         self.holder = me
-        s.activity += 1
+        s.mix(self.name, False, True)
         return True
 
     def release(self):
@@ -530,7 +541,7 @@ class SimLock:
         if self.holder is None:
             raise RuntimeError("release unlocked lock")
         self.holder = None
-        s.activity += 1
+        s.mix(self.name, True, False)
         if s.in_sim():
             s.point("lock.release", self.name)
 
@@ -737,7 +748,7 @@ class SimSocket:
             if not ok:
                 raise TimeoutError("timed out")
         ep = self.backlog.popleft()
-        s.activity += 1
+        s.bump()
         ns = SimSocket(self.family, self.type)
         ns.ep = ep
         ns.addr = ep.conn.saddr
@@ -764,7 +775,7 @@ class SimSocket:
         self.ep = conn.c
         conn.c.sock = self
         lst.backlog.append(conn.s)
-        s.activity += 1
+        s.bump()
         s.obs.append(("net-connect", conn.cid))
 
     # -- data
@@ -787,7 +798,7 @@ class SimSocket:
         ep.conn.tap[ep.side].append(data)
         if data:
             ep.peer.rx.append(data)
-        s.activity += 1
+        s.bump()
         return len(data)
 
     def sendall(self, data, flags=0):
@@ -819,7 +830,7 @@ class SimSocket:
             else:
                 out = chunk[:lim]
                 ep.rx[0] = chunk[lim:]
-            s.activity += 1
+            s.bump()
             return out
         if ep.rx_reset:
             raise ConnectionResetError(errno.ECONNRESET, "Connection reset by peer")
@@ -842,7 +853,7 @@ class SimSocket:
             s.point("sock.shutdown", self.name)
         if not self.ep.peer.rx_eof:
             self.ep.peer.rx_eof = True
-            s.activity += 1
+            s.bump()
             s.obs.append(("net-shutdown", self.ep.conn.cid, self.ep.side))
 
     def close(self):
@@ -852,7 +863,7 @@ class SimSocket:
         if s.in_sim():
             s.point("sock.close", self.name)
         self.closed = True
-        s.activity += 1
+        s.bump()
         if self.listening:
             self.net.listeners.pop(self.addr[1], None)
             for ep in self.backlog:
@@ -872,7 +883,7 @@ class SimSocket:
             self.ep.peer.rx_reset = True
             self.ep.peer.rx.clear()
             s.obs.append(("net-reset", self.ep.conn.cid, self.ep.side))
-        s.activity += 1
+        s.bump()
 
     def __enter__(self):
         return self
@@ -885,6 +896,19 @@ class SimSocketModule:
     socket = SimSocket
     timeout = TimeoutError
     error = OSError
+
+    @staticmethod
+    def getaddrinfo(host, port, family=0, type=0, proto=0, flags=0):
+        """Deterministic resolver: numeric IPv4, '' / None and localhost only
+        (the real resolver is an uncontrolled input and costs syscalls)."""
+        if host in (None, ""):
+            host = "0.0.0.0"
+        elif host == "localhost":
+            host = "127.0.0.1"
+        parts = str(host).split(".")
+        if len(parts) == 4 and all(p.isdigit() and int(p) < 256 for p in parts):
+            return [(_real_socket.AF_INET, _real_socket.SOCK_STREAM, 6, "", (host, port or 0))]
+        return _real_socket.getaddrinfo(host, port, family, type, proto, flags)
 
     def __getattr__(self, k):
         return getattr(_real_socket, k)
@@ -934,8 +958,9 @@ class Watched:
         s = _ACTIVE
         if s is not None and s.current is not None:
             s.point("attr.w", self.name)
-            if obj.__dict__.get(self.key, self.default) != value:
-                s.activity += 1
+            old = obj.__dict__.get(self.key, self.default)
+            if old != value:
+                s.mix((id(obj), self.name), old, value)
         obj.__dict__[self.key] = value
 
 
